@@ -77,7 +77,8 @@ InitRun(c, viol, stats, run) ==
        corruptFrom |-> IF \E p \in 0..N-1 : Has(pc[p], "corrupt_from")
                        THEN pc[CHOOSE p \in 0..N-1 : Has(pc[p], "corrupt_from")].corrupt_from ELSE -1,
        transient |-> Get(c, "transient", FALSE),
-       noInterrupt |-> Get(c, "no_interrupt", FALSE),   \* both sides poll at least every keep-alive interval   \* every fault of this run ends before the timeout
+       noInterrupt |-> Get(c, "no_interrupt", FALSE),
+       forged |-> Get(c, "forged", FALSE),     \* forged packets are injected: silence clocks are not exact   \* both sides poll at least every keep-alive interval   \* every fault of this run ends before the timeout
        marked |-> FALSE, minProgress |-> 0,
        cf |-> [p \in 0..N-1 |-> Get(pc[p], "corrupt_from", 1000000000)],  \* game of p is corrupt from this frame
        owner |-> owner,
@@ -95,7 +96,7 @@ InitRun(c, viol, stats, run) ==
 Stats0 == [ runs |-> 0, ticks |-> 0, advances |-> 0, resims |-> 0, loads |-> 0, maxDepth |-> 0,
             stalls |-> 0, predicted |-> 0, corrected |-> 0, specAdv |-> 0, events |-> 0,
             verified |-> 0, dropsTruth |-> 0, fills |-> 0, discInputs |-> 0, panics |-> 0,
-            notSync |-> 0, delivered |-> 0, dropped |-> 0, dupd |-> 0, runsWithPlannedFault |-> 0,
+            notSync |-> 0, delivered |-> 0, dropped |-> 0, dupd |-> 0, runsWithPlannedFault |-> 0, forgedPackets |-> 0,
             progressChecked |-> 0 ]
 
 G0 == [ N |-> 0, viol |-> <<>>, stats |-> Stats0, run |-> 0 ]
@@ -419,7 +420,7 @@ TickSpec(gg, r) ==
 EvFold(gg, p, r, acc, e) ==
     LET k == e[1]
         pe == acc.pe
-        exact == pe.calls = 1 /\ ~pe.lossy     \* drained right after the generating call
+        exact == pe.calls = 1 /\ ~pe.lossy /\ ~gg.forged    \* drained right after the generating call
     IN
     IF k \in {"Sing", "Sed", "Disc", "Intr", "Resu"} THEN
       LET q  == e[2]
@@ -479,7 +480,7 @@ EvLine(gg, r) ==
   LET p   == r.p
       pe0 == gg.pr[p]
       acc == FoldLeft(LAMBDA a, e : EvFold(gg, p, r, a, e), [pe |-> pe0, vs |-> <<>>], r.ev)
-      exact == pe0.calls = 1 /\ ~pe0.lossy
+      exact == pe0.calls = 1 /\ ~pe0.lossy /\ ~gg.forged
       due == IF exact THEN DueV(gg, p, acc.pe, 0) ELSE <<>>
       due2 == [i \in 1..Len(due) |-> <<due[i][1], r.n, due[i][3], due[i][4]>>]
       remotes == IF gg.isSpec[p] THEN {gg.host[p]}
@@ -582,6 +583,7 @@ Update(gg, r) ==
     [] a = "ev"   -> IF r.r = "skip" THEN gg ELSE EvLine(gg, r)
     [] a \in {"disc", "dly", "stats", "addonly"} -> IF r.r = "skip" THEN gg ELSE OtherPeerLine(gg, r)
     [] a = "kill" -> [gg EXCEPT !.pr[r.p].alive = FALSE]
+    [] a = "forge" -> Bump(gg, "forgedPackets", 1)
     [] a = "mark" -> [gg EXCEPT !.marked = TRUE, !.minProgress = r.min_progress,
                                 !.pr = [p \in 0..gg.N-1 |-> [gg.pr[p] EXCEPT !.mark = gg.pr[p].cur]]]
     [] a = "end"  -> LET g1 == IF Get(r, "faults_hit", 0) > 0 THEN Bump(gg, "runsWithPlannedFault", 1) ELSE gg
